@@ -118,7 +118,7 @@ class Sequence(Field):
         # This happen in others fields like Optional and Ref
         self.seq_elem_field_name = "_seq_elem__" + self.field_name
         self.prototype_field.field_name = self.seq_elem_field_name
-        self.prototype_field._compile(
+        elem_slots = self.prototype_field._compile(
             position=-1, fields=[], bisturi_conf=bisturi_conf
         )
 
@@ -139,7 +139,9 @@ class Sequence(Field):
             )
             self.until_condition = None
 
-        return slots + [self.seq_elem_field_name]
+        return slots + [self.seq_elem_field_name] + [
+            s for s in elem_slots if s != self.seq_elem_field_name
+        ]
 
     def init(self, packet, defaults):
         Field.init(self, packet, defaults)
@@ -316,7 +318,7 @@ class Optional(Field):
         slots = Field._compile_impl(self, position, fields, bisturi_conf)
         self.opt_elem_field_name = "_opt_elem__" + self.field_name
         self.prototype_field.field_name = self.opt_elem_field_name
-        self.prototype_field._compile(
+        elem_slots = self.prototype_field._compile(
             position=-1, fields=[], bisturi_conf=bisturi_conf
         )
 
@@ -324,7 +326,9 @@ class Optional(Field):
         del self.tmp
 
         self.when = normalize_raw_condition_into_a_callable(when)
-        return slots + [self.opt_elem_field_name]
+        return slots + [self.opt_elem_field_name] + [
+            s for s in elem_slots if s != self.opt_elem_field_name
+        ]
 
     def init(self, packet, defaults):
         Field.init(self, packet, defaults)
